@@ -1,4 +1,5 @@
 import BsVerif.Lemmas.PathIndex
+import BsVerif.Lemmas.Symbols
 /-!
 # C17 — names select exactly the functions, files and symbols they denote
 
@@ -78,3 +79,232 @@ def sampleLog : Log Nat :=
 #guard splitStr ":::" "::" == ["", ":"]
 
 end BsVerif.PathIndex
+
+/-! ## `symbol <regex>` across all loaded objects
+
+Model: `BsVerif/Model/Symbols.lean` (`Debugger::get_symbols` over the registry's objects, `SymbolTab`).
+The regex engine is the parameter `p` (a predicate on demangled names); names arrive demangled. -/
+namespace BsVerif.Symbols
+
+/-- **C17_symbols_all_objects.**  For *every* list of objects (with or without DWARF units, with or without a
+`.symtab`) and *every* predicate, an entry is listed iff some object of the list has a `.symtab` whose LAST entry
+of that name it is, and the name matches: no object is skipped, nothing else is listed. -/
+theorem C17_symbols_all_objects (objs : List Obj) (p : String → Bool) (s : Sym) :
+    s ∈ getSymbols objs p ↔
+      ∃ o ∈ objs, ∃ es, o.symtab = some es ∧ lastNamed s.name es = some s ∧ p s.name = true := by
+  unfold getSymbols
+  rw [List.mem_flatMap]
+  constructor
+  · rintro ⟨o, ho, hs⟩
+    refine ⟨o, ho, ?_⟩
+    unfold Obj.findSymbols Obj.table at hs
+    cases hst : o.symtab with
+    | none => simp [hst] at hs
+    | some es =>
+      simp only [hst, Option.map_some, tabFind, List.mem_filter] at hs
+      exact ⟨es, rfl, (mem_tabNew es s).mp hs.1, hs.2⟩
+  · rintro ⟨o, ho, es, hst, hl, hp⟩
+    refine ⟨o, ho, ?_⟩
+    unfold Obj.findSymbols Obj.table
+    simp only [hst, Option.map_some, tabFind, List.mem_filter]
+    exact ⟨(mem_tabNew es s).mpr hl, hp⟩
+
+/-- **C17_symbols_names.**  The listed NAMES are exactly the matching names of the `.symtab`s of ALL objects. -/
+theorem C17_symbols_names (objs : List Obj) (p : String → Bool) (n : String) :
+    n ∈ (getSymbols objs p).map (·.name) ↔ (∃ o ∈ objs, n ∈ o.symtabNames) ∧ p n = true := by
+  constructor
+  · intro h
+    obtain ⟨s, hs, rfl⟩ := List.mem_map.mp h
+    obtain ⟨o, ho, es, hst, hl, hp⟩ := (C17_symbols_all_objects objs p s).mp hs
+    refine ⟨⟨o, ho, ?_⟩, hp⟩
+    unfold Obj.symtabNames
+    rw [hst]
+    exact List.mem_map.mpr ⟨s, lastNamed_mem hl, rfl⟩
+  · rintro ⟨⟨o, ho, hn⟩, hp⟩
+    unfold Obj.symtabNames at hn
+    cases hst : o.symtab with
+    | none => simp [hst] at hn
+    | some es =>
+      rw [hst] at hn
+      obtain ⟨s, hs⟩ := (lastNamed_some_iff n es).mpr (by simpa using hn)
+      have hname := lastNamed_name hs
+      exact List.mem_map.mpr ⟨s, (C17_symbols_all_objects objs p s).mpr
+        ⟨o, ho, es, hst, hname ▸ hs, hname ▸ hp⟩, hname⟩
+
+/-- **C17_symbols_concat.**  The listing over a list of objects is the concatenation of the per-object listings
+(so loading one more object only ADDS that object's matches). -/
+theorem C17_symbols_concat (a b : List Obj) (p : String → Bool) :
+    getSymbols (a ++ b) p = getSymbols a p ++ getSymbols b p := by
+  simp [getSymbols]
+
+theorem C17_symbols_single (o : Obj) (p : String → Bool) : getSymbols [o] p = o.findSymbols p := by
+  simp [getSymbols]
+
+/-- **C17_symbols_once_per_object.**  One object never contributes a name twice. -/
+theorem C17_symbols_once_per_object (o : Obj) (p : String → Bool) :
+    ((o.findSymbols p).map (·.name)).Nodup := by
+  unfold Obj.findSymbols Obj.table
+  cases o.symtab with
+  | none => simp
+  | some es =>
+    simp only [Option.map_some, tabFind]
+    exact ((List.filter_sublist (l := tabNew es)).map _).nodup (nodup_tabNew es)
+
+/-- **C17_symbols_count.**  No object skipped, none duplicated: a matching name is listed exactly once per object
+whose `.symtab` contains it (and a non-matching name never). -/
+theorem C17_symbols_count (objs : List Obj) (p : String → Bool) (n : String) :
+    ((getSymbols objs p).map (·.name)).count n =
+      if p n then (objs.filter fun o => decide (n ∈ o.symtabNames)).length else 0 := by
+  induction objs with
+  | nil => simp [getSymbols]
+  | cons o rest ih =>
+    have hc : getSymbols (o :: rest) p = getSymbols [o] p ++ getSymbols rest p :=
+      C17_symbols_concat [o] rest p
+    rw [hc, List.map_append, List.count_append, ih, C17_symbols_single]
+    have h1 : ((o.findSymbols p).map (·.name)).count n =
+        if n ∈ (o.findSymbols p).map (·.name) then 1 else 0 :=
+      (C17_symbols_once_per_object o p).count
+    have h2 : n ∈ (o.findSymbols p).map (·.name) ↔ n ∈ o.symtabNames ∧ p n = true := by
+      have := C17_symbols_names [o] p n
+      rw [C17_symbols_single] at this
+      simpa using this
+    rw [h1]
+    by_cases hp : p n = true
+    · by_cases hm : n ∈ o.symtabNames
+      · simp [h2, hp, hm]; omega
+      · simp [h2, hp, hm]
+    · simp [h2, hp]
+
+/-- **C17_symbols_perm.**  The order of the objects in the registry (a sort of hash-map values) only permutes
+the listing. -/
+theorem C17_symbols_perm (a b : List Obj) (p : String → Bool) (h : a.Perm b) :
+    (getSymbols a p).Perm (getSymbols b p) :=
+  List.Perm.flatMap_right _ h
+
+/-- **C17_symbols_ignore_dwarf.**  Whether an object has DWARF units has no influence on the listing. -/
+theorem C17_symbols_ignore_dwarf (objs : List Obj) (f : Obj → Bool) (p : String → Bool) :
+    getSymbols (objs.map fun o => { o with hasDwarf := f o }) p = getSymbols objs p := by
+  unfold getSymbols
+  rw [List.flatMap_map]
+  congr 1
+
+/-- the registry keeps one object per path, and `add` makes the new object's symbols visible -/
+theorem C17_symbols_registry_add (o : Obj) (objs : List Obj) (p : String → Bool) (s : Sym)
+    (hs : s ∈ o.findSymbols p) : s ∈ getSymbols (regAdd o objs) p := by
+  unfold getSymbols
+  rw [List.mem_flatMap]
+  refine ⟨o, ?_, hs⟩
+  induction objs with
+  | nil => simp [regAdd]
+  | cons x rest ih =>
+    unfold regAdd
+    split
+    · simp
+    · exact List.mem_cons_of_mem _ ih
+
+/-- the registry of loaded entries (symbol table computed once per object, as `DebugInformationBuilder::build`
+does) answers exactly like the specification-level `getSymbols` over the objects -/
+theorem C17_symbols_loaded_registry (objs : List Obj) (p : String → Bool) :
+    getSymbolsE (objs.map load) p = getSymbols objs p := by
+  unfold getSymbolsE getSymbols
+  rw [List.flatMap_map]
+  rfl
+
+theorem C17_symbols_registry_load_add (o : Obj) (objs : List Obj) :
+    regAddE (load o) (objs.map load) = (regAdd o objs).map load := by
+  induction objs with
+  | nil => simp [regAddE, regAdd]
+  | cons x rest ih =>
+    simp only [List.map_cons, regAddE, regAdd, load]
+    split
+    · simp [load]
+    · simp only [List.map_cons, List.cons.injEq]
+      exact ⟨rfl, ih⟩
+
+theorem C17_symbols_registry_load_remove (f : String) (objs : List Obj) :
+    regRemoveE f (objs.map load) = (regRemove f objs).map load := by
+  induction objs with
+  | nil => simp [regRemoveE, regRemove]
+  | cons x rest ih =>
+    unfold regRemoveE regRemove at ih ⊢
+    simp only [List.map_cons, List.filter_cons, load] at ih ⊢
+    split <;> simp_all [load]
+
+/-- the regex class the model evaluates: an alternative matches iff the literal is the whole name / a prefix /
+a suffix / an infix of the name, according to its anchors -/
+theorem C17_pattern_semantics (a : Alt) (s : List Char) :
+    a.matches s = true ↔
+      (match a.anchorStart, a.anchorEnd with
+       | true, true => s = a.lit
+       | true, false => a.lit <+: s
+       | false, true => a.lit <:+ s
+       | false, false => a.lit <:+: s) := by
+  unfold Alt.matches
+  cases a.anchorStart <;> cases a.anchorEnd <;>
+    simp [isInfixChars_iff, List.isPrefixOf_iff_prefix, List.isSuffixOf_iff_suffix]
+
+/-! ### the full statement: *ELF symbols* include `.dynsym`
+
+The statement of C17 speaks of "the ELF symbols whose demangled name matches".  The implementation reads `.symtab`
+only, so an object that has been stripped of `.symtab` (`strip`, `-C strip=symbols`; most distribution libraries)
+contributes nothing although its `.dynsym` names its exported symbols. -/
+
+/-- every `.dynsym` name of every object is also a `.symtab` name of that object -/
+def DynsymCovered (objs : List Obj) : Prop :=
+  ∀ o ∈ objs, ∀ n ∈ o.dynsym.map (·.name), n ∈ o.symtabNames
+
+instance (objs : List Obj) : Decidable (DynsymCovered objs) := by
+  unfold DynsymCovered; exact inferInstance
+
+def C17_symbols_elf_full : Prop :=
+  ∀ (objs : List Obj) (p : String → Bool) (n : String),
+    n ∈ (getSymbols objs p).map (·.name) ↔ (∃ o ∈ objs, n ∈ o.elfNames) ∧ p n = true
+
+theorem C17_symbols_elf_partial (objs : List Obj) (hc : DynsymCovered objs) (p : String → Bool) (n : String) :
+    n ∈ (getSymbols objs p).map (·.name) ↔ (∃ o ∈ objs, n ∈ o.elfNames) ∧ p n = true := by
+  rw [C17_symbols_names]
+  constructor
+  · rintro ⟨⟨o, ho, hn⟩, hp⟩
+    exact ⟨⟨o, ho, by unfold Obj.elfNames; exact List.mem_append_left _ hn⟩, hp⟩
+  · rintro ⟨⟨o, ho, hn⟩, hp⟩
+    refine ⟨⟨o, ho, ?_⟩, hp⟩
+    unfold Obj.elfNames at hn
+    rcases List.mem_append.mp hn with h | h
+    · exact h
+    · exact hc o ho n h
+
+/-- a library without `.symtab` exporting `f`: `symbol f` lists nothing -/
+def strippedLib : Obj :=
+  { file := "libs.so", hasDwarf := false, symtab := none, dynsym := [⟨"f", 2, 4096⟩] }
+
+theorem C17_symbols_elf_counterexample : ¬ C17_symbols_elf_full := by
+  intro h
+  have := (h [strippedLib] (fun _ => true) "f").mpr ⟨⟨strippedLib, by simp, by simp [Obj.elfNames, strippedLib]⟩, rfl⟩
+  simp [getSymbols, Obj.findSymbols, Obj.table, strippedLib] at this
+
+/-! non-vacuity / sanity (evaluated tests, not proofs) -/
+def exeObj : Obj :=
+  { file := "prog", hasDwarf := true,
+    symtab := some [⟨"", 1, 0⟩, ⟨"main", 2, 100⟩, ⟨"lib_add", 0, 0⟩, ⟨"dup", 3, 8⟩, ⟨"dup", 3, 16⟩] }
+def noDwarfLib : Obj :=
+  { file := "libp.so", hasDwarf := false, symtab := some [⟨"", 1, 0⟩, ⟨"lib_add", 2, 64⟩, ⟨"lib_unused", 2, 96⟩],
+    dynsym := [⟨"lib_add", 2, 64⟩, ⟨"lib_unused", 2, 96⟩] }
+
+#guard (getSymbols [exeObj, noDwarfLib] (patMatches [⟨true, false, "lib_".toList⟩])).map (·.name)
+        == ["lib_add", "lib_add", "lib_unused"]
+#guard (getSymbols [exeObj, noDwarfLib] (patMatches [⟨true, true, "dup".toList⟩])) == [⟨"dup", 3, 16⟩]
+#guard (getSymbols [exeObj, strippedLib] (patMatches [⟨false, false, "f".toList⟩])) == []
+#guard (getSymbols [exeObj, noDwarfLib] (patMatches [⟨true, true, "main".toList⟩, ⟨false, true, "unused".toList⟩])).length == 2
+#guard decide (DynsymCovered [exeObj, noDwarfLib])
+#guard !decide (DynsymCovered [strippedLib])
+example : DynsymCovered [exeObj, noDwarfLib] := by decide
+/-- an object WITHOUT DWARF units contributes its symbols (the hypotheses of `C17_symbols_all_objects` are satisfiable) -/
+example (n : String) :
+    (⟨n, 2, 96⟩ : Sym) ∈ getSymbols [exeObj, { file := "libp.so", hasDwarf := false, symtab := some [⟨n, 2, 96⟩] }]
+      (fun _ => true) := by
+  have h := C17_symbols_concat [exeObj] [{ file := "libp.so", hasDwarf := false, symtab := some [⟨n, 2, 96⟩] }] (fun _ => true)
+  rw [List.singleton_append] at h
+  rw [h]
+  exact List.mem_append_right _ (by simp [getSymbols, Obj.findSymbols, Obj.table, tabNew, tabInsert, tabFind])
+
+end BsVerif.Symbols
